@@ -31,7 +31,7 @@ res["demo_without_change"] = d2.stdout.strip().splitlines()
 os.remove(os.path.join(WT, "tests", "demo_seed.rs"))
 sh("git -C %s checkout -- . && git -C %s clean -fdq -e target" % (WT, WT))
 tr = lambda k: [l for l in res[k] if l.startswith("test result")]
-ok = (any("ok. 81 passed" in l for l in res["baseline_with_change"]) and any("FAILED" in l for l in tr("demo_with_change"))
+ok = (any("ok. 81 passed" in l for l in res["baseline_with_change"]) and (any("FAILED" in l for l in tr("demo_with_change")) or any("error: test failed" in l for l in res["demo_with_change"]))
       and tr("demo_without_change") and all("test result: ok." in l for l in tr("demo_without_change")))
 res["confirmed"] = ok
 print(json.dumps(res, indent=1))
